@@ -333,8 +333,10 @@ inline u32s g_noise(Tape &t, bool wideExtras, int *arm = nullptr) {
 inline const std::vector<std::string> &pool_schemes() { static const std::vector<std::string> v = {"s", "t", "http", "S"}; return v; }
 inline GenAuth g_pool_auth(Tape &t) {
   GenAuth a;
-  static const std::vector<std::string> hosts = {"h", "g", "H", "", "1.2.3.4", "[::1]", "[0:0:0:0:0:0:0:1]", "[v1.a]", "h%41"};
-  static const int kinds[] = {1, 1, 1, 1, 2, 3, 3, 4, 1};
+  // IP hosts come in groups that differ in one half / one octet only, and in spellings of one value
+  static const std::vector<std::string> hosts = {"h", "g", "H", "", "1.2.3.4", "[::1]", "[0:0:0:0:0:0:0:1]", "[v1.a]", "h%41",
+                                                 "[::2]", "[1::1]", "1.2.3.5", "2.2.3.4", "[v1.b]", "[V1.a]", "[::1.2.3.4]", "hh"};
+  static const int kinds[] = {1, 1, 1, 1, 2, 3, 3, 4, 1, 3, 3, 2, 2, 4, 4, 3, 1};
   uint32_t i = t.below((uint32_t)hosts.size());
   a.host = hosts[i]; a.hostKind = kinds[i];
   a.hasUser = t.chance(1, 5);
@@ -387,6 +389,13 @@ inline GenUri g_ref(Tape &t, const GenUri &base, int *kind = nullptr, int flavor
       break;
     case 1:
       r.hasScheme = true; r.scheme = (base.hasScheme && base.scheme == "s") ? "t" : (t.coin() ? "s" : "X");
+      // schemes that are *related* to the base's without being equal: extension, proper prefix, other letter case
+      if (base.hasScheme) switch (t.weighted({5, 2, 1, 1})) {
+        case 1: r.scheme = base.scheme + (t.coin() ? "s" : "+x"); break;
+        case 2: r.scheme = base.scheme.size() > 1 ? base.scheme.substr(0, base.scheme.size() - 1) : base.scheme + "0"; break;
+        case 3: r.scheme = base.scheme; r.scheme[0] = (char)(r.scheme[0] ^ 0x20); break;
+        default: break;
+      }
       r.hasAuth = t.coin();
       if (r.hasAuth) r.auth = g_pool_auth(t);
       r.path = g_pool_path(t, true, r.hasAuth, flavor);
@@ -461,7 +470,14 @@ inline void g_source_base(Tape &t, GenUri *S, GenUri *B, int *klass, int flavor 
       break;
     case 5: break;
     case 6: if (!s.hasAuth && !b.hasAuth) srooted = !brooted; else { s.hasAuth = false; srooted = t.coin(); } break;
-    case 7: s.scheme = b.scheme == "s" ? "t" : (t.coin() ? "s" : "S"); break;
+    case 7:
+      s.scheme = b.scheme == "s" ? "t" : (t.coin() ? "s" : "S");
+      switch (t.weighted({4, 2, 1})) {  // related but different schemes: extension / proper prefix
+        case 1: s.scheme = b.scheme + (t.coin() ? "s" : ".x"); break;
+        case 2: if (b.scheme.size() > 1) s.scheme = b.scheme.substr(0, b.scheme.size() - 1); break;
+        default: break;
+      }
+      break;
     case 8: { ss.clear(); int n = t.range(0, 4); for (int i = 0; i < n; i++) ss.push_back(seg()); break; }
     default: break;
   }
